@@ -855,7 +855,7 @@ def k10_fresh_solution_state(F, r):
             name = util.short_fn(F.root_of(fid))
             leaves, crossed = mir.deep_leaves(fn, rv["o"][rv["fs"].index("state")])
             copied = [(k, p) for k, v, p in leaves if k in ("arg", "local") and "state" in [str(x) for x in p]]
-            fresh = any(c.endswith(("Default::default", "SolutionState::default", "::new")) for c in crossed) and not copied
+            fresh = not copied        # built by Default / a constructor / a helper: anything but a copy of another context's `state` field
             if F.root_of(fid).endswith("SolutionContext::deep_copy"):
                 r.ok(f"{name}: state", "copy of the same routes: aggregates stay valid")
             elif fresh:
